@@ -320,6 +320,22 @@ func selftestOracle() int {
 		os.RemoveAll(dir)
 	}
 	fmt.Printf("selftest oracle: %d worlds, %d disagreements between the in-process oracle and go/packages\n", n, bad)
+	// the C12 canonical form: insensitive to function order, function names
+	// and which same-named import gets the short alias; sensitive to bodies
+	// and to which package a qualified type comes from
+	def := func(pl string) string { return world.PluginPrefix[pl] }
+	g1 := "package p\n\nimport (\n\text \"example.com/w/ext\"\n\tw_other_ext \"example.com/w/other/ext\"\n)\n\nfunc deriveEqual(this, that *ext.T) bool { return deriveEqual_(this, that) }\n\nfunc deriveEqual_(this, that *w_other_ext.T) bool { return this == that }\n"
+	g2 := "package p\n\nimport (\n\tw_ext \"example.com/w/ext\"\n\text \"example.com/w/other/ext\"\n)\n\nfunc deriveEqual_1(this, that *ext.T) bool { return this == that }\n\nfunc deriveEqual_7(this, that *w_ext.T) bool { return deriveEqual_1(this, that) }\n"
+	g3 := strings.Replace(g2, "*w_ext.T", "*ext.T", 1)
+	g4 := strings.Replace(g2, "this == that", "this != that", 1)
+	c1, e1 := canonicalDerived(g1, def)
+	c2, e2 := canonicalDerived(g2, def)
+	c3, _ := canonicalDerived(g3, def)
+	c4, _ := canonicalDerived(g4, def)
+	if e1 != nil || e2 != nil || c1 != c2 || c1 == c3 || c1 == c4 {
+		bad++
+		fmt.Printf("selftest oracle: canonical form of generated files is wrong: %v %v\n%s\n--\n%s\n--\n%s\n", e1, e2, c1, c2, c3)
+	}
 	if bad > 0 {
 		return 1
 	}
